@@ -267,6 +267,26 @@ func (f *frame) chanSendOp(ch, v Value, st *State, pos token.Pos, blocking bool)
 func (f *frame) chanSend(i *ssa.Send, n *node, st *State) *State {
 	ch := f.get(i.Chan, n, st)
 	v := f.get(i.X, n, st)
+	// assertions attached to this send (v: the value sent)
+	if f.c != nil {
+		fld := chanField(i.Chan)
+		if j := strings.LastIndex(fld, "."); j >= 0 {
+			fld = fld[j+1:]
+		}
+		if fld != "" {
+			f.callSeq["send "+fld]++
+			site := fmt.Sprintf("send %s#%d", fld, f.callSeq["send "+fld])
+			if as := f.c.CallAsserts[site]; len(as) > 0 {
+				f.x.hitSites[site] = true
+				for _, a := range as {
+					sc := f.x.newSpecCtx(f, n, st, f.x.entryState)
+					sc.anchor = i.Pos()
+					sc.vars["v"] = v
+					f.x.oblige("assert@"+site, a.Tags, st.pc, sc.evalBool(a.Expr), i.Pos(), a.Text)
+				}
+			}
+		}
+	}
 	if g := f.chanInvTerm(i.Chan, v, n, st); !g.IsTrue() {
 		f.x.oblige("chaninv", nil, st.pc, g, i.Pos(), "value sent satisfies the channel's content invariant")
 	}
@@ -527,6 +547,13 @@ func (x *Exec) isClosable(v ssa.Value) bool {
 			}
 		}
 		return true
+	}
+	if x.C != nil {
+		for _, s := range x.C.Stable {
+			if strings.HasSuffix(fld, "."+s) {
+				return false
+			}
+		}
 	}
 	if x.closeSites == nil {
 		x.closeSites = map[string]bool{}
